@@ -290,6 +290,21 @@ func (tb TemporalBound) String() string {
 		return "_"
 	case NowBound:
 		return "now"
+	case DurationTemporalBound:
+		// Printed in the largest unit of the source syntax (d, h, m, s, ms) that represents it exactly.
+		d := time.Duration(tb.Timestamp)
+		switch {
+		case d%(24*time.Hour) == 0:
+			return fmt.Sprintf("%dd", int64(d/(24*time.Hour)))
+		case d%time.Hour == 0:
+			return fmt.Sprintf("%dh", int64(d/time.Hour))
+		case d%time.Minute == 0:
+			return fmt.Sprintf("%dm", int64(d/time.Minute))
+		case d%time.Second == 0:
+			return fmt.Sprintf("%ds", int64(d/time.Second))
+		default:
+			return fmt.Sprintf("%dms", int64(d/time.Millisecond))
+		}
 	default:
 		return "?"
 	}
@@ -309,6 +324,8 @@ func (tb TemporalBound) Equals(other TemporalBound) bool {
 		return true // Type equality is enough
 	case NowBound:
 		return true // All 'now' bounds are equal
+	case DurationTemporalBound:
+		return tb.Timestamp == other.Timestamp
 	}
 	return false
 }
